@@ -237,4 +237,3 @@ func runCanariesImpl(dir string) string {
 	}
 	return ""
 }
-
